@@ -444,6 +444,7 @@ type Contract struct {
 	Trusted        bool // in-repo function whose body is not verified (listed)
 	AssumeEnsures  bool
 	Forbids        map[string]bool // "forbids <callee>...": the function never (reachably) calls these
+	MustCall       []string        // "calls <callee>...": every normal return is preceded by a call of each of these
 	AssumedClauses map[string]bool // "assumed <clause-name>...": these ensures clauses are definitions/assumptions, not proved
 	File           string
 	Requires       []Clause
@@ -731,6 +732,11 @@ func (S *Specs) LoadFile(path string, extern bool) error {
 			for _, n := range strings.Fields(strings.ReplaceAll(rest, ",", " ")) {
 				cur.Forbids[n] = true
 			}
+		case "calls":
+			if cur == nil {
+				return fail(fmt.Errorf("calls outside func"))
+			}
+			cur.MustCall = append(cur.MustCall, strings.Fields(strings.ReplaceAll(rest, ",", " "))...)
 		case "assumed":
 			if cur == nil {
 				return fail(fmt.Errorf("assumed outside func"))
